@@ -325,8 +325,18 @@ func renderValue(v reflect.Value, depth int, b *strings.Builder) {
 		fmt.Fprintf(b, "%q", v.String())
 	case reflect.Float32, reflect.Float64:
 		fmt.Fprintf(b, "%x", v.Float())
+	case reflect.Bool:
+		fmt.Fprintf(b, "%v", v.Bool())
+	case reflect.Int, reflect.Int8, reflect.Int16, reflect.Int32, reflect.Int64:
+		fmt.Fprintf(b, "%d", v.Int())
+	case reflect.Uint, reflect.Uint8, reflect.Uint16, reflect.Uint32, reflect.Uint64, reflect.Uintptr:
+		fmt.Fprintf(b, "%d", v.Uint())
 	default:
-		fmt.Fprintf(b, "%v", v.Interface())
+		if v.CanInterface() {
+			fmt.Fprintf(b, "%v", v.Interface())
+		} else {
+			fmt.Fprintf(b, "<%s>", v.Kind())
+		}
 	}
 }
 
